@@ -122,7 +122,8 @@ class Mem:
             size, v = self.cells[off]
             args.append(T.const_int(64, off)); args.append(v)
         # uninitialised local storage is canonical (its name is an artefact of instruction numbering)
-        under = self.arr if self.arr is not None else T.mk('mem0', ('local' if self.kind in ('alloca', 'exn') else self.base, self.kind), (), 'mem')
+        pargs = (T._nodes[int(self.base[3:])],) if self.base.startswith('sym') else ()
+        under = self.arr if self.arr is not None else T.mk('mem0', ('local' if self.kind in ('alloca', 'exn') else ('sym' if pargs else self.base), self.kind), pargs, 'mem')
         if not args:
             return under
         return T.mk('mem', None, tuple([under] + args), 'mem')
@@ -152,6 +153,8 @@ def norm_callee(name):
             return ('ignore', base)
         if base in ('memcpy', 'memmove', 'memset'):
             return (base, base)
+        if base == 'x86':
+            return ('pure', '.'.join(parts[1:]))
         return ('pure', base)
     m = re.match(r'^([a-z0-9]+?)(f|l)?$', name)
     if name in LIBM:
@@ -260,6 +263,10 @@ class Interp:
             return T.mk('zeroagg', o['size'], (), ty_norm(o['t']))
         if k in ('md', 'asm'):
             return T.mk('meta', k, (), None)
+        if k in ('cagg', 'cseq'):
+            return T.mk('cvec', o.get('t'), tuple(self.const(e) for e in o['elems']), ty_norm(o.get('t', 'vec')))
+        if k == 'unk':
+            return T.undef(ty_norm(o.get('t', '')), 'poison')
         raise Unsupported('constant kind %s' % k)
 
     def ptr_add(self, p, delta):
@@ -404,6 +411,7 @@ class Interp:
             return self.read_frozen(args[0], off, size, ty)
         if fz.op == 'mem0':
             base, kind = fz.attr
+            if base == 'sym': base = 'sym%d' % fz.args[0].id
             return self.initial(Mem(base, kind), off, size, ty)
         return T.mk('sel', size, (fz, T.const_int(64, off)), ty)
 
@@ -694,6 +702,8 @@ class Interp:
                     env[iid] = T.undef(ty, 'landingpad')
                 elif op == 'freeze':
                     env[iid] = val(ops[0])
+                elif op in ('insertelement', 'extractelement', 'shufflevector'):
+                    env[iid] = T.mk(op, tuple(ins.get('mask', ())) or None, tuple(val(o) for o in ops), ty)
                 else:
                     raise Unsupported('opcode %s' % op)
             if not term_done:
